@@ -760,6 +760,9 @@ func (e *Env) call(c *ECall) TV {
 		v := e.toTerm(e.eval(c.Args[0]))
 		t := e.resolveType(exprKey(c.Args[1]))
 		return TV{And(Neq(v, TInt(0)), Eq(ifTag(v), e.x.eng.typeID(t))), boolT}
+	case "ifaceval":
+		// the value boxed in an interface (untyped): for func values passed as interface{}
+		return TV{ifRef(e.toTerm(e.eval(c.Args[0]))), nil}
 	case "as":
 		v := e.toTerm(e.eval(c.Args[0]))
 		t := e.resolveType(exprKey(c.Args[1]))
@@ -813,7 +816,7 @@ func (e *Env) call(c *ECall) TV {
 		return TV{Sub(now, old), nil}
 	case "chlen":
 		ch := e.toTerm(e.eval(c.Args[0]))
-		return TV{Sel(st.comp("CH!len", ArrSort(SI, SI)), ch), nil}
+		return TV{Sub(Sel(st.comp("CH!sent", ArrSort(SI, SI)), ch), Sel(st.comp("CH!rcvd", ArrSort(SI, SI)), ch)), nil}
 	case "chcap":
 		ch := e.toTerm(e.eval(c.Args[0]))
 		return TV{Sel(st.comp("CH!cap", ArrSort(SI, SI)), ch), nil}
@@ -899,6 +902,11 @@ func (e *Env) call(c *ECall) TV {
 		sv := e.st.freshVal("time.unix", tt).(*StructVal)
 		fillFromFn(e.st, sv, "time.unix", []Term{e.intTerm(c.Args[0]), e.intTerm(c.Args[1])})
 		return TV{sv, tt}
+	case "timenonzero":
+		a := flatten(e.st, e.materialize(e.eval(c.Args[0])))
+		return TV{UF(SB, "time.nonzero", a...), boolT}
+	case "hasdeadline":
+		return TV{UF(SB, "ctx.hasdeadline", e.toTerm(e.eval(c.Args[0]))), boolT}
 	case "timeafter":
 		a := flatten(e.st, e.materialize(e.eval(c.Args[0])))
 		b := flatten(e.st, e.materialize(e.eval(c.Args[1])))
